@@ -165,6 +165,11 @@ def templates():
     t("get2", ("get", ("[", "xs0", "xs0"), H(0, "x", "p"), H(1, "x", "p")))
     t("cut", ("cut", H(0, "xs", "p"), H(1, "x", "p"), H(2, "x", "p")))
     t("cut1", ("cut", H(0, "xs", "p"), H(1, "x", "p")))
+    # literal bounds, zero included (a literal 0 is a falsy model: it is still a bound)
+    t("cut-lit0", ("cut", H(0, "xs", "p"), 1, 0))
+    t("cut-lit0-step", ("cut", H(0, "xs", "p"), 2, 0, -1))
+    t("cut-lit0-only", ("cut", H(0, "xs", "p"), 0))
+    t("cut-lit-none", ("cut", H(0, "xs", "p"), None, 0, None))
     t("setv-get", ("do", ("setv", "d", ("[", 0, 0)), ("setv", ("get", "d", H(0, "x", "p", False, ("pv", "pe"))), H(1)), "d"))
     t("while", ("while", H(0), H(1, "v", None, True), ("break",)))
     t("while-else", ("do", ("setv", "n", 0),
@@ -281,6 +286,22 @@ def depth1(fillers=FILLERS, tpls=None, in_fn=False):
     return out
 
 
+def _written(tpl, acc=None):
+    """Fixed variable names that a template assigns (setv / setx / loop and comprehension targets / except variables)."""
+    acc = set() if acc is None else acc
+    if isinstance(tpl, tuple) and tpl and not is_hole(tpl):
+        h = tpl[0]
+        if h in ("setv", "setx") and len(tpl) > 1:
+            for t in tpl[1::2] if h == "setv" else tpl[1:2]:
+                if isinstance(t, str):
+                    acc.add(t)
+        if h in ("lfor", "sfor", "dfor", "gfor") and len(tpl) > 1 and isinstance(tpl[1], str):
+            acc.add(tpl[1])
+        for a in tpl:
+            _written(a, acc)
+    return acc
+
+
 def depth2(outer_fillers=("pe", "sx", "st", "sw", "sn"), inner_tpls=None, outer_tpls=None, stride=1, offset=0):
     """Template over (template over fillers): every slot of every outer
     template receives every inner template instantiated with one statement
@@ -305,6 +326,11 @@ def depth2(outer_fillers=("pe", "sx", "st", "sw", "sn"), inner_tpls=None, outer_
                 continue
             for iname, itpl, iasg in inner:
                 if is_comp and iname.split("[")[0] in binders:
+                    continue
+                if _written(itpl) & _written(otpl):
+                    # both templates assign the same fixed name (a template nested in itself, ...): when the two
+                    # assignments sit in sibling operands, one of them statement-producing, the value read afterwards
+                    # depends on the documented-as-unspecified order of hoisted statements and sibling expressions
                     continue
                 n += 1
                 if (n + offset) % stride:
